@@ -10,8 +10,7 @@ import NdnModel.Name
       gt:<comp>           Component.get_type             gv:<comp>        Component.get_value
       tn:<comp>           Component.to_number
       nfs:<text>          Name.from_str                  nts:<name> / ntc:<name>   Name.to_str / to_canonical_uri
-      enc:<name>          Name.encode                    dec:<wire>       Name.decode  → <name>@<consumed>@<o|x>
-                                                         (o = some component overran the declared Length)
+      enc:<name>          Name.encode                    dec:<wire>       Name.decode  → <name>@<consumed>
       nrm:<e>,<e>…        Name.normalize of a list, e ::= s<text> | b<comp>
       nrs:<text>          Name.normalize of a str        nrw:<wire>       Name.normalize of a wire
       pre:<name>:<name>   Name.is_prefix
@@ -41,14 +40,6 @@ def parseElem (s : String) : Option (Str ⊕ Bytes) :=
   if s.startsWith "s" then (textOfHex (s.drop 1).toString).map .inl
   else if s.startsWith "b" then (fromHex (s.drop 1).toString).map .inr
   else none
-
-def overran (buf : Bytes) (r : List Bytes × Nat) : Bool :=
-  match Ndn.parseTlNum buf 0 with
-  | .ok (_, st) =>
-    match Ndn.parseTlNum buf st with
-    | .ok (l, sl) => r.2 != st + sl + l
-    | _ => false
-  | _ => false
 
 def op (tok : String) : String :=
   match tok.splitOn ":" with
@@ -94,8 +85,7 @@ def op (tok : String) : String :=
     | some n => "ok=" ++ toHex (Name.encode n)
     | none => "bad-op"
   | ["dec", w] => match fromHex w with
-    | some w => showE (fun r => toHexList r.1 ++ "@" ++ toString r.2 ++ "@" ++ (if overran w r then "o" else "x"))
-        (Name.decode w)
+    | some w => showE (fun r => toHexList r.1 ++ "@" ++ toString r.2) (Name.decode w)
     | none => "bad-op"
   | ["nrm", l] =>
     match (if l == "." then some [] else (l.splitOn ",").mapM parseElem) with
